@@ -10,3 +10,24 @@ pub mod m {
     pub mod server { pub use crate::server::*; }
     pub mod source { pub use crate::source::*; }
 }
+
+// ---- group a9 (C44/C45): put server-side state into a manager; read it back. Adds items only. ----
+pub mod a9 {
+    use crate::{CsptpManager, CsptpState, StateMutex};
+    use ntp_proto::{ClockId, NtpLeapIndicator};
+
+    /// Set the leap indicator of the time snapshot the server answers from.
+    pub fn set_leap<M: StateMutex>(m: &CsptpManager<M>, leap: NtpLeapIndicator) {
+        m.state.with_mut(|s| s.time_snapshot.leap_indicator = leap);
+    }
+    pub fn leap<M: StateMutex>(m: &CsptpManager<M>) -> NtpLeapIndicator {
+        m.state.with_ref(|s| s.time_snapshot.leap_indicator)
+    }
+    /// Replace the observable CSPTP state (what `observe()` returns).
+    pub fn set_csptp_state<M: StateMutex>(m: &CsptpManager<M>, st: CsptpState) {
+        m.state.with_mut(|s| s.csptp_state = st);
+    }
+    pub fn active_source<M: StateMutex>(m: &CsptpManager<M>) -> Option<ClockId> {
+        m.state.with_ref(|s| s.active_source)
+    }
+}
